@@ -41,6 +41,7 @@ class Tracer:
         self.roots = roots
         self._callers = None
         self.visited_fns = set()
+        self.terminals = set()      # where the backward walk ended: ('param', fn, name) at a function nobody calls, ('call', callee) at an opaque call
 
     def callers(self, fn):
         if self._callers is None:
@@ -123,6 +124,7 @@ class Tracer:
                 tgt = local_target(self.eng, t)
                 n_real += 1
                 if any(tgt and tgt.endswith(r) or cal.endswith(r) for r in self.roots):
+                    self._terminal(('root', tgt or cal))
                     out.add(self._position(rest))
                 elif cal == 'std::ops::Index::index' and len(t['args']) == 2:
                     r = zf._range_arg(t['args'][1])
@@ -154,10 +156,17 @@ class Tracer:
                     # a helper: follow its return value; parameters reached inside come back as this call's arguments
                     out |= self._through(fn, t, tgt, rest, depth + 1)
                 else:
+                    self._terminal(('call', cal))
                     out.add(None)
         if n_real == 0:
             out.add(None)
         return out
+
+    def _terminal(self, t):
+        tr = self
+        while tr is not None:
+            tr.terminals.add(t)
+            tr = getattr(tr, '_outer', None)
 
     def _through(self, fn, call, tgt, pending, depth):
         sub = Tracer(self.ctx, self.cfg, self.roots)
@@ -173,6 +182,7 @@ class Tracer:
         outer = getattr(self, '_outer', None)
         sites = self.callers(fn)
         if not sites:
+            self._terminal(('param', fn, self.prog.bodies[fn].local_name(l)))
             return {None}
         out = set()
         for cfn, t in sites:
